@@ -115,6 +115,18 @@ func (a *AnalyzedSchema) inferFromRef() error {
 			return nil
 		}
 
+		if a.schema.Ref.HasFragmentOnly && a.root != nil {
+			// a JSON pointer to an optional part which is absent from the root document resolves as a nil pointer
+			target, _, erp := a.schema.Ref.GetPointer().Get(a.root)
+			if erp != nil {
+				return ErrResolveSchema(erp)
+			}
+
+			if isAbsent(target) {
+				return ErrResolveSchema(ErrNoSchema)
+			}
+		}
+
 		sch := new(spec.Schema)
 		sch.Ref = a.schema.Ref
 		err := spec.ExpandSchema(sch, a.root, nil)
